@@ -90,6 +90,13 @@ func cmdCheck(args []string) int {
 	seed, _ := strconv.Atoi(os.Getenv("VERIF_SEED"))
 	t0 := time.Now()
 	jobs := p.Jobs(tier)
+	names := map[string]bool{}
+	for _, j := range jobs {
+		if names[j.Name] {
+			fatalf("duplicate job name %q (replays address jobs by name)", j.Name)
+		}
+		names[j.Name] = true
+	}
 	sel := matchJobs(jobs, jobsRe)
 	if len(sel) == 0 {
 		fatalf("no jobs for %s tier %s", id, tier)
